@@ -1,14 +1,50 @@
-//! Operations for C10 (see ops.rs). Fill in: return Some(outcome) for the ops this module owns.
+//! C10: each operation with fixed "separating" operands (the same as OptionsMachine.tla) and the option set of the case.
 use crate::js::{self, big, int};
-use crate::ops::{utc, FS};
+use crate::ops::FS;
 use crate::proj::*;
 use serde_json::{json, Value};
+use std::str::FromStr;
 use temporal_rs::options::*;
 use temporal_rs::*;
 
+fn ta() -> TemporalResult<PlainTime> { PlainTime::try_new(1, 0, 0, 0, 0, 0) }
+fn tb() -> TemporalResult<PlainTime> { PlainTime::try_new(2, 36, 36, 600, 600, 600) }
+const IA: i128 = 1_000_000_000_000_000;
+const IB: i128 = IA + 5_796_600_600_600;
+fn da() -> TemporalResult<PlainDateTime> { PlainDateTime::try_new(2020, 1, 15, 1, 0, 0, 0, 0, 0, iso()) }
+fn db() -> TemporalResult<PlainDateTime> { PlainDateTime::try_new(2020, 1, 16, 2, 36, 36, 600, 600, 600, iso()) }
+fn fixed_dur() -> TemporalResult<Duration> {
+    use temporal_rs::primitive::FiniteF64 as F;
+    Duration::new(F::from(0i8), F::from(0i8), F::from(0i8), F::from(1i8), F::from(1i8), F::from(36i8), F::from(36i8), F::from(600i16), F::from(600i16), F::from(600i16))
+}
+
 pub fn exec(op: &str, a: &Value) -> Option<Value> {
-    let _ = a;
-    match op {
-        _ => None,
-    }
+    let st = &a["st"];
+    Some(match op {
+        "Opt.PlainDate.until" => run(|| PlainDate::try_new(2020, 1, 15, iso())?.until(&PlainDate::try_new(2021, 3, 20, iso())?, arg_settings(st)?), p_duration),
+        "Opt.PlainDate.since" => run(|| PlainDate::try_new(2020, 1, 15, iso())?.since(&PlainDate::try_new(2021, 3, 20, iso())?, arg_settings(st)?), p_duration),
+        "Opt.PlainTime.until" => run(|| ta()?.until(&tb()?, arg_settings(st)?), p_duration),
+        "Opt.PlainTime.since" => run(|| ta()?.since(&tb()?, arg_settings(st)?), p_duration),
+        "Opt.PlainDateTime.until" => run(|| da()?.until(&db()?, arg_settings(st)?), p_duration),
+        "Opt.PlainDateTime.since" => run(|| da()?.since(&db()?, arg_settings(st)?), p_duration),
+        "Opt.Instant.until" => run(|| Instant::try_new(IA)?.until(&Instant::try_new(IB)?, arg_settings(st)?), p_duration),
+        "Opt.Instant.since" => run(|| Instant::try_new(IA)?.since(&Instant::try_new(IB)?, arg_settings(st)?), p_duration),
+        "Opt.PlainYearMonth.until" => run(|| PlainYearMonth::from_str("2020-01")?.until(&PlainYearMonth::from_str("2021-03")?, arg_settings(st)?), p_duration),
+        "Opt.PlainYearMonth.since" => run(|| PlainYearMonth::from_str("2020-01")?.since(&PlainYearMonth::from_str("2021-03")?, arg_settings(st)?), p_duration),
+        "Opt.Duration.round" => run(|| {
+            // calendar units need a reference date (C09): supply one exactly when the option set names a calendar unit
+            let cal = |k: &str| matches!(js::opt_s(st, k), Some("week") | Some("month") | Some("year"));
+            let rel = if cal("largest") || cal("smallest") { Some(RelativeTo::PlainDate(PlainDate::try_new(2020, 1, 15, iso())?)) } else { None };
+            FS.with(|p| fixed_dur()?.round_with_provider(arg_rounding(st)?, rel, p))
+        }, p_duration),
+        "Opt.PlainDateTime.round" => run(|| db()?.round(arg_rounding(st)?), p_datetime),
+        "Opt.Instant.round" => run(|| Instant::try_new(IB)?.round(arg_rounding(st)?), p_instant),
+        "Opt.PlainTime.round" => run(|| {
+            // PlainTime::round takes the unit positionally; an absent / "auto" smallest unit cannot be expressed -> treated as Unit::Auto
+            let u = js::opt_s(st, "smallest").map(arg_unit).unwrap_or(Unit::Auto);
+            let inc = st.get("inc").and_then(|x| x.as_i64()).map(|x| x as f64);
+            tb()?.round(u, inc, js::opt_s(st, "mode").map(arg_mode))
+        }, p_time),
+        _ => return None,
+    })
 }
